@@ -1738,6 +1738,19 @@ class MeshRegion:
                 next_region.poloidal_distance.corners[:, :] = (
                     region.poloidal_distance.corners[:, -1, numpy.newaxis]
                 )
+                # The distances along the contours of next_region do not have to be zero
+                # at its first point (they are not on non-orthogonal grids), so count
+                # them from there
+                for i in range(next_region.nx):
+                    c = next_region.contours[2 * i + 1]
+                    d0 = c.get_distance(psi=self.meshParent.equilibrium.psi)[c.startInd]
+                    next_region.poloidal_distance.centre[i, :] -= d0
+                    next_region.poloidal_distance.ylow[i, :] -= d0
+                for i in range(next_region.nx + 1):
+                    c = next_region.contours[2 * i]
+                    d0 = c.get_distance(psi=self.meshParent.equilibrium.psi)[c.startInd]
+                    next_region.poloidal_distance.xlow[i, :] -= d0
+                    next_region.poloidal_distance.corners[i, :] -= d0
                 region = next_region
 
         # Save total poloidal distance in core
